@@ -510,6 +510,8 @@ def run(ctx):
                             "Monitored only (ASan, %d s per-call alarm, forked children): %d mutated files of %d seed formats x random API scripts; "
                             "evaluations = files + tie cases; distinct_nontrivial = (seed format, open outcome) classes"
                             % (OP_TIMEOUT, fz.stats["files"], len(seeds)))
+    from .. import alaccore       # hostile ALAC packets under ASan vs the Lean decoder core (lean/SfModel/AlacCore.lean …; theorems SfProps/C03Alac.lean)
+    alaccore.run(ctx, "C03", 45 if ctx.tier == "quick" else 900)
     if getattr(fz, "example", None):
         ctx.sample(fz.example)
     ctx.sample({"seed_formats": ["%08x" % s[0] for s in seeds[:12]], "mutation_kinds": fz.stats["by_kind"], "routes": fz.stats["by_route"]})
